@@ -21,6 +21,12 @@ def not_sentinel(I, res, e, F):
             for x, y in ((a, b), (b, a)):
                 if (x == ('addr', ('deref', F)) or x == F) and y[0] == 'addr' and prover.root_static(y[1]) == 'EMPTY_CHUNK':
                     return 'guarded by the false edge of is_empty(F)'
+    # the sentinel's finger is its own address and (by this very rule) never changes: finger != footer address excludes it
+    for f in e.state.facts:
+        if f[0] in ('ne', 'lt') and len(f) == 3:
+            for x, y in ((f[1], f[2]), (f[2], f[1])):
+                if y == F and isinstance(x, tuple) and x[:1] == ('load',) and x[1] == ('fld', ('deref', F), 'ChunkFooter.ptr'):
+                    return 'guarded by finger != footer address (the sentinel points at itself)'
     # created in this call
     aggs = [arena.footer_agg(s)[0] for s in res.events if s.kind == 'store' and arena.footer_agg(s)]
     if any(a in subterms(F) for a in aggs):
